@@ -37,6 +37,7 @@ def full_cfg(cfg: dict) -> dict:
     c["strat"] = list(cfg["strat"])
     c["legacy"] = list(cfg.get("legacy", []))
     c.setdefault("hooks", False)
+    c["adaptive"] = list(cfg.get("adaptive", []))
     c.setdefault("bW", 100000)
     return c
 
@@ -150,6 +151,7 @@ def random_scenario(rng: random.Random, focus: str) -> tuple[dict, list[dict]]:
         "opname": rng.random() < 0.7,
         "hooks": rng.random() < 0.3,
     }
+    cfg["adaptive"] = [n for n in names if n not in cfg["legacy"] and rng.random() < 0.4]
     n_runs = rng.choice([1, 1, 2, 3])
     mode = rng.choice(["call", "exec"])
     ev: list[dict] = []
